@@ -17,8 +17,9 @@ from .pyq import TranslateError, dotted, fail
 
 HEADER = """(* GENERATED on every run by harness/translate/{who}.py from
    {srcs} -- do not edit. *)
-From Coq Require Import ZArith Bool.
+From Coq Require Import ZArith Bool List.
 From LK Require Import Lib.PyInt.
+Import ListNotations.
 Open Scope Z_scope.
 
 """
